@@ -206,6 +206,9 @@ func (r *Result) violateSpec(spec *RunSpec, prop, class, sig, format string, a .
 	r.Violations = append(r.Violations, Violation{Property: prop, Class: class, Signature: sig, Detail: fmt.Sprintf(format, a...), Spec: spec})
 }
 
+// CloneSpec deep-copies a spec through its JSON form.
+func CloneSpec(s *RunSpec) *RunSpec { return cloneSpec(s) }
+
 func cloneSpec(s *RunSpec) *RunSpec {
 	b, _ := json.Marshal(s)
 	var c RunSpec
